@@ -213,11 +213,54 @@ def enum(r, name="E"):
     return it
 
 
+def enum_prim(r, name="E"):
+    """an enum mapped to a primitive: every variant has a #[literal] or a #[pattern]; a pattern variant gets the expression it
+    converts back to (now and then only a name: an empty arm, rejected since fix 08c970f), a unit / payload variant may carry
+    a variant-level instruction, a default arm closes the From side"""
+    prim = r.choice(["i32", "u8", "i64", "&'static str", "String"])
+    strs = prim in ("&'static str", "String")
+    attrs = []
+    nm = r.choice(["map", "map_owned", "from", "into", "from_owned", "owned_into", "ref_into", "try_map_owned", "try_into"])
+    ks, fall = gen.kinds_of(nm)
+    head = prim + (", String" if fall else "")
+    params = []
+    if r.random() < 0.7:
+        params.append(r.choice(["_ => todo!()", "_ => panic!(\"no\")", "_ => { mk(&@) }"]))
+    if r.random() < 0.2:
+        params.insert(0, "vars(v0: { 1 })")
+    attrs.append(Instr(nm, head + (" | " + ", ".join(params) if params else ""), tag=("trait", prim)))
+    variants = []
+    for k in range(r.randrange(1, 5)):
+        vat = []
+        lit = f"\"s{k}\"" if strs else str(k)
+        t = r.random()
+        if t < 0.5:
+            vat.append(Instr("literal", lit, tag=("lit", None)))
+        elif t < 0.9:
+            vat.append(Instr("pattern", r.choice([f"\"a{k}\" | \"b{k}\"", "_"]) if strs else r.choice([f"{k}..={k + 5}", f"{k} | {k + 100}", "_", f"x if x > {k}"]), tag=("pat", None)))
+            if r.random() < 0.9:
+                vat.append(Instr(r.choice(["into", "owned_into", "ref_into"]), "{ " + lit + " }" if r.random() < 0.85 else f"W{k}", tag=("mmap", None)))
+        else:
+            vat.append(Instr("literal", lit, tag=("lit", None)))
+            vat.append(Instr("pattern", "_", tag=("pat", None)))
+        r.shuffle(vat)
+        shape = r.choice(["unit", "unit", "unit", "tuple", "named"])
+        fields = [Field(NAMES[j] if shape == "named" else None, "i32", [Instr("ghost", "{ 0 }", tag=("ghost", None))] if r.random() < 0.5 else []) for j in range(0 if shape == "unit" else 1)]
+        variants.append(Variant(f"V{k}", shape, fields, vat))
+    it = Item("enum", name, "named", "", attrs, [], variants)
+    it.meta["cparts"] = [prim]
+    return it
+
+
 def gen_consistent(seed, n):
     r = random.Random(f"wf-consistent-{seed}")
+    rp = random.Random(f"wf-consistent-prim-{seed}")
     out = []
     for k in range(n):
         it = struct(r) if r.random() < 0.7 else enum(r)
+        # a tenth of the items, from a stream of their own: enums mapped to a primitive (literals and patterns)
+        if rp.random() < 0.1:
+            it = enum_prim(rp)
         it.meta["id"] = f"wfc-{seed}-{k}"
         out.append(it)
     return out
